@@ -67,6 +67,11 @@ impl Matcher for SpanTableMatcher {
         at: usize,
     ) -> Result<Option<Match>, FatErr> {
         // hay is a suffix of the input: its first byte is at absolute p0
+        // (anything longer than the input is not the input: no answer; the
+        // harness' comparison with the model then fails on the byte count)
+        if hay.len() > self.n {
+            return Ok(None);
+        }
         let p0 = self.n - hay.len();
         let abs_at = p0 + at;
         let mut s = 0;
@@ -391,4 +396,40 @@ pub(crate) fn c16_multiline_refuse<S: Shape>() {
 /// C16 for the multi-line strategy: sink error at every sink call
 pub(crate) fn c16_multiline_error<S: Shape>() {
     c13_enum::<S>(if S::HAY.len() <= 2 { MAXN } else { 1 }, false, Some(true), &[1, 2, 4])
+}
+
+/// C13/C02 (history): multi-line search through `Searcher::search_reader` reads
+/// the whole input into a buffer the Searcher REUSES for the next search; two
+/// consecutive searches of the same input (2-byte reads) must both equal the
+/// model (offsets and byte count from zero again).  Every span table with at
+/// most one match start; no context; line numbering symbolic.
+pub(crate) fn c13_reader_reuse<S: Shape>() {
+    let n = S::HAY.len();
+    let cfg = Cfg { a: 0, b: 0, invert: false, passthru: false, lnum: kani::any(), stop_nm: false };
+    let mut searcher = build_searcher::<S>(&cfg, true);
+    let total = table_count(n);
+    let mut seen_match = false;
+    let mut t = 0;
+    while t < total {
+        if let Some(e) = table_from_index(n, t, 1) {
+            let matcher = SpanTableMatcher { n, e, e0: e, used_e0: std::cell::Cell::new(false) };
+            let (sel, _straddle) = ref_selected::<S>(&matcher);
+            let want = multiline_model::<S>(&sel, &cfg);
+            let mut round = 0;
+            while round < 2 {
+                let mut sink = RecSink::new(S::HAY);
+                let fr = FragReader { hay: S::HAY, pos: 0, calls: 0, chunk: [2; MAXREADS], err_at: usize::MAX, err_interrupted: false };
+                let r = searcher.search_reader(&matcher, fr, &mut sink);
+                assert!(r.is_ok(), "search returns Ok");
+                assert_log_is_model(&sink, &want, true, evcap::<S>());
+                if sink.n >= 3 {
+                    seen_match = true;
+                }
+                round += 1;
+            }
+        }
+        t += 1;
+    }
+    kani::cover!(seen_match, "reach-end");
+    std::mem::forget(searcher);
 }
